@@ -18,6 +18,7 @@ EXPLANATION = (
     "ratio), decimation follows the zero-phase (sosfiltfilt) low-pass, the edge taper lies inside the discarded margin; "
     "(D3) LF metadata: imSampRate = fs_lf = 2500 with fs_lf * ratio == fs_ap, channel counts derive from the written column "
     "list. The filter response and 1-LSB agreement are NOT decided."
+    " (D5) window-state coherence as in C03-D7. (D4 as built) two views of one buffer that are provably disjoint leading-axis ranges (B[:a] and B[b:] with a <= b under init_params' definitions) do not alias."
 )
 ASSUMPTIONS = [
     "scipy.signal.sosfiltfilt is zero-phase; x[:, ::r] picks samples 0, r, 2r ... (model table)",
